@@ -36,7 +36,9 @@ scratch copy of `/repo`'s HEAD, the unedited test suite still passes there (196)
 0 without and non-zero with the change, and the quick check of the broken property is run against the copy
 (`MOSROMGR_SRC`).  They are kept under `seeded/<id>/` (patch.diff, demo.py, notes.md, check_result.json,
 meta.json); `tools/try_all_seeded.sh` re-runs all of them.  **All %d are caught by the quick check of the property
-they break, each with a failing input replayed on the real code.**  The last column says what the deductive part
+they break: %d with a failing input replayed on the real code, %d (round 5: `R5A_2`, `R5B_3`, `R5C_3`, `R5D_3`) by failed
+obligations alone (`VIOLATION ... no-failing-input-found`, the replay file names the obligations and carries the
+solver output; the stand-in has no history / input for them yet).**  The last column says what the deductive part
 did on its own: obligations that fail on the changed source, or *tool limit* when the change moved the function
 out of the engine's subset (new loop without invariant, `Element.iter`, `dict.fromkeys`, ...) so that the
 bounded real-code check had to decide.
@@ -89,9 +91,11 @@ What the misses of each round exposed, and what was strengthened:
   reference must never resolve to it); a carriage return in the merged text written with `-o` (`R4D_4`).
   `R4C_1` (`from_string` strips the text first) failed 278 obligations but had no concrete input at first:
   documents with white space, BOM, NBSP and blank lines before / after the root or the XML declaration added.
-* Round 5 (20 changes; every one was caught by at least one of the checks named by its author at first, 16 of 20
-  by the check of the *main* property; 14 of 20 by failed obligations, 6 as tool limits).  The four that the check of the main
-  property let through, and what was done: `R5D_4` / `R5C_1` (`MosReader.mos_object` remembers the restored object,
+* Round 5 (20 changes; every one was caught at first by at least one of the checks its author named, 14 of 20
+  by the check of the *main* property; in the end 14 by failed obligations, 4 as tool limits, 2 - `R5A_1` under C01 and
+  `R5B_2` under C13 - by the bounded check alone because the changed function, `MosElement.id` / `MosReader.from_string`,
+  is not among the functions those two checks verify: its obligations fail in the C12 / C18 check instead).  The six that the check of the main
+  property let through at first, and what was done: `R5D_4` / `R5C_1` (`MosReader.mos_object` remembers the restored object,
   so two collections built from the same readers share one running order): caught under C13 / C18 only, because
   the body proof of `mos_object` started from a hand-built reader without the new field (an `AttributeError` path
   tagged C18).  The entry state now also carries every field the real `MosReader.__init__` initialises to `None`,
@@ -105,9 +109,16 @@ What the misses of each round exposed, and what was strengthened:
   built-in exception under C12 / C05 only - it now also reports it under C06 (named elements not acted on, nothing
   the library defines reported it).  `R5A_3` (`MetaDataReplace.merge` copies only the text of a childless target):
   a tool limit (write to `Element.text`) without a scenario; carried metadata with attributes / children replacing
-  a text-only element, and empty elements replacing full ones, added to the stand-in.  `R5D_2` (`assert` instead
-  of `raise` in `_validate`, wrong only under `python -O`) is caught without further work because the engine gives
-  `assert` no exception semantics a caller may rely on (the obligation "mixed roIDs are rejected" fails).
+  a text-only element, and empty elements replacing full ones, added to the stand-in.  `R5B_2` (`MosReader.from_string`
+  keeps the parsed object in a closure) and `R5C_3` (strict `MosCollection.merge` re-raises a new `MosMergeError`,
+  so a completed running order no longer surfaces as `MosCompletedMergeError`) looked caught under C13 / C07 in the
+  first, heavily parallel batch - by one solver time-out each, not by a real failure (a warning about verdicts under
+  overload: five checks, 80 solver processes on 16 cores).  Now: two collections built from one reader list
+  (`from_string` and `from_file`) are part of the C13 histories, and `MosCollection.merge` has the clause
+  `strict_mode_lets_the_error_class_of_the_failing_message_escape` (C07+C09: the exception leaving is the one
+  `ro += mo` raised, or one of the same class raised from it).  `R5D_2` (`assert` instead of `raise` in `_validate`,
+  wrong only under `python -O`) fails two obligations of `_validate` and is replayed by the stand-in, which already
+  ran every construction under `-O` as well.
 
 | id | breaks | file | needs to manifest | caught by | deductive part alone |
 |---|---|---|---|---|---|
@@ -142,7 +153,7 @@ lost proofs) pass 128 check runs with every function proved.  What remains out o
 introduces a genuinely new loop or moves a loop that carries an invariant into a new helper function (`RGB_4`,
 `RGD_6`; `extend` in a loop instead of `chain.from_iterable`, `RFC_5`) needs a new invariant / contract; the
 function is then reported as a tool limit and decided by the bounded check only.
-''' % (len(rows), nrow[1], nrow[2], nrow[3], nrow[4], nrow[5], len(rows), '\n'.join(rows))
+''' % (len(rows), nrow[1], nrow[2], nrow[3], nrow[4], nrow[5], len(rows), sum(1 for r in rows if 'failing input replayed' in r), sum(1 for r in rows if 'no failing input found' in r), '\n'.join(rows))
 p = os.path.join(V, 'DESIGN.md')
 s = open(p).read()
 a = s.index('## 10. Seeded changes and which checks catch them')
